@@ -307,6 +307,72 @@ static void runtime_type_case(vh_rng* r, int ninst) {
 }
 
 
+/* ---------- foreach: the header macro looks the Iter instance up once and calls its members directly ----------
+** The statement's "method lookup macros" include foreach: over a type that lacks Iter, or leaves iter_init empty,
+** it raises ClassError before anything runs; a walk that reaches an empty iter_next raises ClassError there (the
+** body has run for the items produced so far), it never jumps through the empty slot.  The library's own foreach
+** loops (List concat) are compiled from the same macro. */
+static volatile long fe_calls[5];
+static int fe_items;                /* how many items the stub iterator produces */
+static char fe_blocks[8][sizeof(struct Header) + sizeof(struct Int)];
+static var fe_obj(int i) { var o = header_init(fe_blocks[i], Int, AllocStatic); ((struct Int*)o)->val = 100 + i; return o; }
+static var fe_init(var s) { (void)s; fe_calls[0]++; return fe_items > 0 ? fe_obj(0) : Terminal; }
+static var fe_next(var s, var c) { (void)s; fe_calls[1]++; int64_t i = ((struct Int*)c)->val - 100 + 1; return i < fe_items ? fe_obj((int)i) : Terminal; }
+static var fe_last(var s) { (void)s; fe_calls[2]++; return Terminal; }
+static var fe_prev(var s, var c) { (void)s; (void)c; fe_calls[3]++; return Terminal; }
+static var fe_type(var s) { (void)s; fe_calls[4]++; return Int; }
+
+static void foreach_case(vh_rng* r) {
+  static void* fns[5] = { (void*)fe_init, (void*)fe_next, (void*)fe_last, (void*)fe_prev, (void*)fe_type };
+  int has_iter = !vh_chance(r, 15);
+  uint32_t mask = (uint32_t)vh_below(r, 32);
+  if (vh_chance(r, 30)) { mask = (mask | 2u) & ~1u; }          /* iter_next filled, iter_init empty */
+  if (vh_chance(r, 30)) { mask = (mask | 1u) & ~2u; }          /* iter_init filled, iter_next empty */
+  char tname[32]; snprintf(tname, sizeof tname, "FE%ld", (long)vh_below(r, 1000000));
+  var args = new(Tuple);
+  push(args, $S(strdup(tname))); push(args, $I(16));
+  static void* two[2] = { (void*)stub0, (void*)stub1 };
+  int nfill = (int)vh_below(r, 6);
+  for (int i = 0; i < nfill; i++) { push(args, make_instance(SYN[i * 3], 2, two, 3)); }
+  if (has_iter) { push(args, make_instance(Iter, 5, fns, mask)); }
+  var exc = NULL, type = NULL;
+  VH_CATCH(type = new_root_with(Type, args), exc);
+  if (exc || !type) { vh_violation(K("runtime-type:construction-raised"), "new(Type, ...) raised %s", vh_exc_name(exc)); return; }
+  char objbuf[sizeof(struct Header) + 64]; memset(objbuf, 0, sizeof objbuf);
+  var obj = fake_object(type, objbuf);
+  int has_init = has_iter && (mask & 1), has_next = has_iter && (mask >> 1 & 1);
+  for (int round = 0; round < 3; round++) {
+    fe_items = round == 0 ? 0 : 1 + (int)vh_below(r, 6);
+    int via_library = round == 2 && vh_chance(r, 50);
+    vh_op("foreach over %s (Iter %s, iter_init %s, iter_next %s), %d items%s", tname, has_iter ? "declared" : "absent", has_init ? "filled" : "empty",
+          has_next ? "filled" : "empty", fe_items, via_library ? ", inside List concat" : "");
+    long before[5]; for (int q = 0; q < 5; q++) { before[q] = fe_calls[q]; }
+    long sb[NSTUB]; for (int q = 0; q < NSTUB; q++) { sb[q] = stub_calls[q]; }
+    volatile int body = 0; volatile int64_t sum = 0;
+    var arr = via_library ? new_raw(List, Int) : NULL;
+    if (via_library) { VH_CATCH(concat(arr, obj), exc); body = (int)len(arr); foreach (x in arr) { sum += c_int(x); } }
+    else { VH_CATCH({ foreach (x in obj) { body++; sum += c_int(x); } }, exc); }
+    vh_evals(3);
+    long d[5]; for (int q = 0; q < 5; q++) { d[q] = fe_calls[q] - before[q]; }
+    long others = d[2] + d[3] + d[4];
+    for (int q = 0; q < NSTUB; q++) { others += stub_calls[q] - sb[q]; }
+    int want_body, want_init, want_next; var want_exc;
+    if (!has_init) { want_exc = ClassError; want_body = 0; want_init = 0; want_next = 0; vh_count(has_iter ? "foreach_over_empty_iter_init" : "foreach_over_type_without_iter"); }
+    else if (fe_items == 0) { want_exc = NULL; want_body = 0; want_init = 1; want_next = 0; vh_count("foreach_over_no_items"); }
+    else if (!has_next) { want_exc = ClassError; want_body = 1; want_init = 1; want_next = 0; vh_count("foreach_reaching_empty_iter_next"); }
+    else { want_exc = NULL; want_body = fe_items; want_init = 1; want_next = fe_items; vh_count("foreach_complete_walks"); }
+    int64_t want_sum = 0; for (int i = 0; i < want_body; i++) { want_sum += 100 + i; }
+    if (exc != want_exc) { vh_violation(K(want_exc ? "foreach:missing-member-did-not-raise-classerror" : "foreach:declared-member-raised"), "foreach gave %s, expected %s", vh_exc_name(exc), vh_exc_name(want_exc)); }
+    if (d[0] != want_init || d[1] != want_next || others != 0) {
+      vh_violation(K(want_exc ? "foreach:something-was-invoked-for-a-missing-member" : "foreach:wrong-function-invoked"),
+                   "foreach called iter_init %ld (want %d), iter_next %ld (want %d), other members %ld times", d[0], want_init, d[1], want_next, others);
+    }
+    if (body != want_body || sum != want_sum) { vh_violation(K("foreach:wrong-items"), "foreach body ran %d times (sum %lld), expected %d (sum %lld)", body, (long long)sum, want_body, (long long)want_sum); }
+    if (arr) { del_raw(arr); }
+  }
+  vh_count("foreach_types");
+}
+
 /* ---------- dispatchers with a documented default: an empty member falls back, it is never invoked ----------
 ** construct / destruct / copy / assign / swap / cmp / hash / show / size do not raise ClassError when the class or the
 ** member is missing: they do what a type without the class gets.  For a run-time type that declares these classes
@@ -624,6 +690,7 @@ static void fixed(void) {
     vh_count("oversized_type_attempts");
   }
   for (int k = 0; k < 40; k++) { vh.oplen = 0; vh.oplog[0] = 0; vh.nops = 0; fallback_case(&r); }
+  for (int k = 0; k < 60; k++) { vh.oplen = 0; vh.oplog[0] = 0; vh.nops = 0; foreach_case(&r); }
   for (int k = 0; k < 24; k++) { vh.oplen = 0; vh.oplog[0] = 0; vh.nops = 0; same_name_types(&r); }
   for (int k = 0; k < 12; k++) { vh.oplen = 0; vh.oplog[0] = 0; vh.nops = 0; vh_op("cold type objects as receivers, round %d", k); cold_receivers(&r); }
   concurrent_cold_lookups(&r, 50);
@@ -635,6 +702,7 @@ static void case_random(vh_rng* r, long index) {
     int ni = vh_chance(r, 20) ? 200 + (int)vh_below(r, 57) : (int)vh_below(r, 40);
     runtime_type_case(r, ni);
     for (int k = 0; k < 4; k++) { fallback_case(r); }
+    for (int k = 0; k < 4; k++) { foreach_case(r); }
     same_name_types(r);
     cold_receivers(r);
   } else if (index % 3 == 1) {
